@@ -53,7 +53,13 @@ class Properties:
         if not pattern_elems:
             return prop
         composite = Property(
-            AllOf(prop.element, *pattern_elems),
+            # The declared property's default applies to the combined schema,
+            # otherwise an omitted property matching a pattern loses it.
+            AllOf(
+                prop.element,
+                *pattern_elems,
+                default=getattr(prop.element, "default", NotPassed()),
+            ),
             source=prop.source,
             required=prop.required,
         )
